@@ -179,10 +179,18 @@ def run(ctx):
         if len(samples) < 3 and printed:
             samples.append({"grammar": r.text, "gocc": r.gocc_out.split("\n")[0], "exit": r.rc, "exit_with_-a": ra.rc})
     gen_bad = []
+    exit_bad = []
     for r, ra in usable:
         gc = lrcommon.gen_compare(ctx, r)
         if gc is not None:
             gen_bad.append("%s: %s" % (r.name, gc))
+        # K: the exit status GenAuto.gocc_exit predicts (C04_every_grammar_exit_status) = the binary's, without and with -a
+        lrcommon.gen_compare(ctx, r, auto=True)
+        me = getattr(r, "model_exit", None)
+        if me is None or me != (r.rc, ra.rc):
+            exit_bad.append("%s: model predicts exit %s (plain, -a), gocc exits (%s, %s)" % (r.name, me, r.rc, ra.rc))
+    ctx.add_obligation("K: GenAuto.gocc_exit (exit status decided by the syntax part, C04_every_grammar_exit_status) = the binary's exit status "
+                       "without and with -a on %d grammars" % len(usable), not exit_bad, "; ".join(exit_bad[:3])[:600])
     ctx.add_obligation("K: model generator (LR/Gen.v; succeeds iff no canonical LR(1) conflict: C02_generator_succeeds_iff_LR1) = gocc on %d "
                        "grammars (automaton, conflict-state count)" % len(usable), not gen_bad, "; ".join(gen_bad[:2])[:600])
     ctx.add_obligation("R: auto_valid = true and gocc_reports = announced count (by vm_compute) for %d dumped automata" % len(usable),
